@@ -1,6 +1,6 @@
 //! C03 executor: build a `Response` by a sequence of public operations, `complete` it, `send` it into a Vec.
 use crate::util::*;
-use ohkami::{Response, Status};
+use ohkami::{Ohkami, Response, Route, Status};
 use serde_json::{json, Value};
 use std::borrow::Cow;
 
@@ -13,8 +13,8 @@ macro_rules! std_set {
 }
 for_each_res_header!(std_set);
 
-pub fn run_case(c: &Value) -> Value {
-    pin_clock(c["clock"].as_u64().unwrap_or(PINNED_CLOCK));
+/// the response the operation history builds
+fn build(c: &Value) -> Response {
     let mut res = Response::new(Status::from(c["status"].as_u64().unwrap() as u16));
     for op in c["ops"].as_array().unwrap() {
         let a = op.as_array().unwrap();
@@ -56,9 +56,23 @@ pub fn run_case(c: &Value) -> Value {
             other => panic!("harness: unknown op {other}"),
         }
     }
+    res
+}
+
+thread_local! { static CURRENT: std::cell::RefCell<Value> = std::cell::RefCell::new(Value::Null); }
+async fn built() -> Response { CURRENT.with(|c| build(&c.borrow())) }
+
+pub fn run_case(c: &Value) -> Value {
+    pin_clock(c["clock"].as_u64().unwrap_or(PINNED_CLOCK));
+    let mut res = build(c);
     res.__verif_complete();
     let declared = res.__verif_declared_size();
     let mut wire = Vec::new();
     rt().block_on(async { res.__verif_send(&mut wire).await; });
-    json!({"wire": hex(&wire), "declared": declared})
+    // the same response returned by a handler, through the real Router::handle (GET and HEAD) and the serializer
+    thread_local! { static APP: ohkami::testing::TestingOhkami = { use ohkami::testing::Testing; Ohkami::new(("/".GET(built),)).test() }; }
+    CURRENT.with(|cur| *cur.borrow_mut() = c.clone());
+    let served = |m: &str| APP.with(|t| crate::apps::wire(t, m, b"/", &[], b"")).map(|w| hex(&w)).unwrap_or_default();
+    let (get, head) = (served("GET"), served("HEAD"));
+    json!({"wire": hex(&wire), "declared": declared, "get": get, "head": head})
 }
